@@ -134,8 +134,75 @@ func specMovSpecialOpcode(f InstructionForm) bool {
 func specMovForms() []InstructionForm { return instructionData.Instructions["MOV"].Forms }
 
 //@ func addMovFallbackEncodings
-//@ props C01
-//@ option no-panic-obligations
+//@ props C01 C13
+//@ requires[A18] instructionData.Instructions != nil
 //@ ensures[roles] forall(old(len(specMovForms())), len(specMovForms()), func(k int) bool { return specFormRolesOK(specMovForms()[k]) })
 //@ ensures[opcodes] forall(old(len(specMovForms())), len(specMovForms()), func(k int) bool { return specMovSpecialOpcode(specMovForms()[k]) })
+//@ assigns *
+
+// IN / OUT (SDM Vol. 2): IN AL,imm8 = E4 ib, IN AX|EAX,imm8 = E5 ib, IN AL,DX = EC, IN AX|EAX,DX = ED;
+// OUT imm8,AL = E6 ib, OUT imm8,AX|EAX = E7 ib, OUT DX,AL = EE, OUT DX,AX|EAX = EF. The immediate is
+// the port operand, one byte.
+func specInOutFormOK(f InstructionForm, out bool) bool {
+	if f.Operands == nil || len(*f.Operands) != 2 || len(f.Encodings) != 1 {
+		return false
+	}
+	port, data, portIdx := (*f.Operands)[1].Type, (*f.Operands)[0].Type, "#1"
+	if out {
+		port, data, portIdx = (*f.Operands)[0].Type, (*f.Operands)[1].Type, "#0"
+	}
+	e := f.Encodings[0]
+	wide := data == "ax" || data == "eax"
+	if !(wide || data == "al") || e.ModRM != nil || e.Opcode.Addend != nil {
+		return false
+	}
+	base := "E4"
+	switch {
+	case !out && port == "imm8" && wide:
+		base = "E5"
+	case !out && port == "dx" && !wide:
+		base = "EC"
+	case !out && port == "dx" && wide:
+		base = "ED"
+	case out && port == "imm8" && !wide:
+		base = "E6"
+	case out && port == "imm8" && wide:
+		base = "E7"
+	case out && port == "dx" && !wide:
+		base = "EE"
+	case out && port == "dx" && wide:
+		base = "EF"
+	}
+	if port == "imm8" {
+		return e.Opcode.Byte == base && e.Immediate != nil && e.Immediate.Size == 1 && e.Immediate.Value == portIdx
+	}
+	return port == "dx" && e.Opcode.Byte == base && e.Immediate == nil
+}
+
+func specFormsOf(op string) []InstructionForm { return instructionData.Instructions[op].Forms }
+
+//@ func addInFallbackEncodings
+//@ props C01 C13
+//@ requires[A18] instructionData.Instructions != nil
+//@ ensures[rows] forall(0, len(specFormsOf("IN")), func(k int) bool { return specInOutFormOK(specFormsOf("IN")[k], false) })
+//@ assigns *
+
+//@ func addOutFallbackEncodings
+//@ props C01 C13
+//@ requires[A18] instructionData.Instructions != nil
+//@ ensures[rows] forall(0, len(specFormsOf("OUT")), func(k int) bool { return specInOutFormOK(specFormsOf("OUT")[k], true) })
+//@ assigns *
+
+// PUSH r32 = 50+rd, POP r32 = 58+rd: the register number is added to the opcode, no ModR/M, no immediate.
+func specPlusRdForm(f InstructionForm, base string) bool {
+	return f.Operands != nil && len(*f.Operands) == 1 && (*f.Operands)[0].Type == "r32" && len(f.Encodings) == 1 &&
+		f.Encodings[0].Opcode.Byte == base && f.Encodings[0].Opcode.Addend != nil && *f.Encodings[0].Opcode.Addend == "#0" &&
+		f.Encodings[0].ModRM == nil && f.Encodings[0].Immediate == nil
+}
+
+//@ func addPushPopFallbackEncodings
+//@ props C01 C13
+//@ requires[A18] instructionData.Instructions != nil
+//@ ensures[push] len(specFormsOf("PUSH")) >= 1 && specPlusRdForm(specFormsOf("PUSH")[len(specFormsOf("PUSH"))-1], "50")
+//@ ensures[pop] len(specFormsOf("POP")) >= 1 && specPlusRdForm(specFormsOf("POP")[len(specFormsOf("POP"))-1], "58")
 //@ assigns *
